@@ -281,7 +281,10 @@ class CrashLab:
         for q in q_list:
             if q > len(data):
                 continue
-            image2 = bytes(cur[:start if start is not None else len(cur)]) + data[:q]
+            # the first q bytes of the recovery put are written IN PLACE at its start position: whatever the file held
+            # beyond them (nothing, if the torn tail was discarded when the file was opened) is still there
+            st = start if start is not None else len(cur)
+            image2 = bytes(cur[:st]) + data[:q] + bytes(cur[st + q:])
             self._write_image(image2)
             ev = [{"ev": "crash", "p": q}]
             size = len(image2)
